@@ -230,10 +230,11 @@ def _mentions(v: Any, name: str) -> bool:
     return False
 
 
-def sign_summary_premise(prog: Program, rep: Any) -> None:
+def sign_summary_premise(prog: Program, rep: Any, claims_signature: bool = False) -> None:
     """The API analyses replace sign_packet_with_crc_key by its summary (p ++ 8 signature nibbles over p, raising on
     bad hex).  That summary is C04's theorem; it is re-derived here on the current tree, and whatever C04 cannot
-    discharge is inherited as rule PREMISE-C04 (a violation of the signer is a violation of every frame property)."""
+    discharge is inherited as rule PREMISE-C04: as a violation by the property whose statement includes the signature
+    (C01), as "premise not established" (undecided) by the others, whose conclusions merely rest on it."""
     from .props import c04
     from .report import DISCHARGED, Report, UNDECIDED, VIOLATED
 
@@ -244,7 +245,7 @@ def sign_summary_premise(prog: Program, rep: Any) -> None:
     if not bad:
         rep.ok("PREMISE-C04", "signer summary", "src/aioswitcher/device/tools.py sign_packet_with_crc_key", f"{len(sub.obligations)} obligations of C04 discharged")
     for o in bad:
-        if o.verdict == VIOLATED:
+        if o.verdict == VIOLATED and claims_signature:
             rep.bad("PREMISE-C04", f"{o.rule} {o.instance}", o.where, f"the frames are signed by a function that violates C04 {o.rule}: {o.why}", key=f"PREMISE-C04|{o.rule}|{o.instance}")
         else:
-            rep.undecided("PREMISE-C04", f"{o.rule} {o.instance}", o.where, f"C04 {o.rule} is undecided on this tree, so the signer summary is not established: {o.why}")
+            rep.undecided("PREMISE-C04", f"{o.rule} {o.instance}", o.where, f"C04 {o.rule} is {'violated' if o.verdict == VIOLATED else 'undecided'} on this tree, so the signer summary this analysis rests on is not established: {o.why}")
